@@ -4,6 +4,7 @@ package xtime
 import (
 	"context"
 	"fmt"
+	"math"
 	"math/rand"
 	"sync"
 	"time"
@@ -100,6 +101,11 @@ func (t *JitterTicker) schedule() {
 			offset = -offset - 1
 		}
 		next += offset
+		if next < 0 {
+			// d + offset overflowed (d close to the largest Duration): wait as long as possible
+			// rather than not at all.
+			next = math.MaxInt64
+		}
 	}
 
 	// To prevent a latent goroutine already spawned but not yet running the below function from
